@@ -217,6 +217,8 @@ def make_overrun(rng, sp, nodes):
     """the last element (in byte order) declares g bytes more than it has room for and the bytes are present: it overruns every
     known-size ancestor, whatever lies between (in 60% of the cases its direct parent is made unknown-size, so the check has to look
     through it).  Returns (data, offset of the element, id, declared size) or None."""
+    import copy
+    nodes = copy.deepcopy(nodes)      # the caller's nodes must keep describing the caller's bytes (found by the C04 soak run)
     chain = []
     ns = nodes
     while ns and ns[-1].is_master():
